@@ -583,7 +583,7 @@ fn eval_labelset<T: HLabel>(ctx: &mut Ctx, rng: &mut Rng, len: usize) {
 }
 
 pub fn run_c12(ctx: &mut Ctx) {
-    let n: u64 = ctx.tier.pick(40_000, 1_500_000);
+    let n: u64 = ctx.tier.pick(400_000, 6_000_000);
     for i in 0..n {
         if !ctx.mine(i) {
             continue;
@@ -1361,7 +1361,7 @@ fn check_cli(ctx: &mut Ctx, iccma: bool, bytes: &[u8], idx: u64) {
 }
 
 pub fn run_c13(ctx: &mut Ctx) {
-    let n: u64 = ctx.tier.pick(60_000, 2_000_000);
+    let n: u64 = ctx.tier.pick(80_000, 2_000_000);
     let cli_every: u64 = ctx.tier.pick(100, 500);
     for i in 0..n {
         if !ctx.mine(i) {
@@ -1624,16 +1624,25 @@ fn eval_c14_framework(ctx: &mut Ctx, rng: &mut Rng) {
 }
 
 fn eval_c14_answers(ctx: &mut Ctx, rng: &mut Rng) {
-    let n = rng.range(0, 9);
+    // mostly small label sets; now and then thousands of labels (buffers, batching)
+    let n = if rng.pct(2) {
+        ctx.count("extensions_over_1000_labels");
+        rng.range(1000, 5000)
+    } else if rng.pct(5) {
+        rng.range(10, 300)
+    } else {
+        rng.range(0, 9)
+    };
     let short = rng.pct(30);
     // ICCMA writer over usize labels
     {
         let labels: Vec<usize> = (0..n).map(|i| if rng.pct(50) { i + 1 } else { 1000 * (i + 1) + rng.below(999) }).collect();
         let aset = ArgumentSet::new_with_labels(&labels);
-        let mut chosen: Vec<&Argument<usize>> = aset.iter().filter(|_| rng.pct(50)).collect();
+        let keep = if n > 9 { 90 } else { 50 };
+        let mut chosen: Vec<&Argument<usize>> = aset.iter().filter(|_| rng.pct(keep)).collect();
         rng.shuffle(&mut chosen);
         let expect: Vec<String> = chosen.iter().map(|a| a.label().to_string()).collect();
-        let case = json!({"kind": "iccma-extension", "labels": expect});
+        let case = json!({"kind": "iccma-extension", "n_labels": expect.len(), "labels_prefix": expect.iter().take(20).collect::<Vec<_>>()});
         ctx.eval();
         match catch(|| write_with(short, |w| Iccma23Writer.write_single_extension(w, &chosen))) {
             Err(p) => ctx.violation(&format!("C14/panic/iccma-write_single_extension/{}", p.site()), p.to_json(), &case),
@@ -1646,13 +1655,19 @@ fn eval_c14_answers(ctx: &mut Ctx, rng: &mut Rng) {
                         h.bytes(&b);
                         ctx.nontrivial(h.finish());
                     }
-                    ctx.sample("iccma-extension", || json!({"labels": expect, "written": String::from_utf8_lossy(&b)}));
+                    if expect.len() <= 12 {
+                        ctx.sample("iccma-extension", || json!({"labels": expect, "written": String::from_utf8_lossy(&b)}));
+                    }
                 }
-                got => ctx.violation(
-                    "C14/iccma-extension-does-not-read-back",
-                    json!({"written": String::from_utf8_lossy(&b), "parsed": got, "expected": expect}),
-                    &case,
-                ),
+                got => {
+                    let first_diff = got.as_ref().map(|g| g.iter().zip(expect.iter()).position(|(a, b)| a != b));
+                    ctx.violation(
+                        "C14/iccma-extension-does-not-read-back",
+                        json!({"labels": expect.len(), "parsed_labels": got.as_ref().map(|g| g.len()), "first_difference_at": first_diff,
+                               "written_prefix": String::from_utf8_lossy(&b).chars().take(200).collect::<String>()}),
+                        &json!({"kind": "iccma-extension", "n_labels": expect.len(), "labels_prefix": expect.iter().take(20).collect::<Vec<_>>()}),
+                    )
+                }
             },
         }
         for st in [true, false] {
@@ -1673,10 +1688,11 @@ fn eval_c14_answers(ctx: &mut Ctx, rng: &mut Rng) {
     {
         let labels: Vec<String> = (0..n).map(|i| ident_label(i * 3 + rng.below(3))).collect();
         let aset = ArgumentSet::new_with_labels(&labels);
-        let mut chosen: Vec<&Argument<String>> = aset.iter().filter(|_| rng.pct(50)).collect();
+        let keep = if n > 9 { 90 } else { 50 };
+        let mut chosen: Vec<&Argument<String>> = aset.iter().filter(|_| rng.pct(keep)).collect();
         rng.shuffle(&mut chosen);
         let expect: Vec<String> = chosen.iter().map(|a| a.label().clone()).collect();
-        let case = json!({"kind": "apx-extension", "labels": expect});
+        let case = json!({"kind": "apx-extension", "n_labels": expect.len(), "labels_prefix": expect.iter().take(20).collect::<Vec<_>>()});
         ctx.eval();
         match catch(|| write_with(short, |w| AspartixWriter.write_single_extension(w, &chosen))) {
             Err(p) => ctx.violation(&format!("C14/panic/apx-write_single_extension/{}", p.site()), p.to_json(), &case),
@@ -1689,13 +1705,19 @@ fn eval_c14_answers(ctx: &mut Ctx, rng: &mut Rng) {
                         h.bytes(&b);
                         ctx.nontrivial(h.finish());
                     }
-                    ctx.sample("apx-extension", || json!({"labels": expect, "written": String::from_utf8_lossy(&b)}));
+                    if expect.len() <= 12 {
+                        ctx.sample("apx-extension", || json!({"labels": expect, "written": String::from_utf8_lossy(&b)}));
+                    }
                 }
-                got => ctx.violation(
-                    "C14/apx-extension-does-not-read-back",
-                    json!({"written": String::from_utf8_lossy(&b), "parsed": got, "expected": expect}),
-                    &case,
-                ),
+                got => {
+                    let first_diff = got.as_ref().map(|g| g.iter().zip(expect.iter()).position(|(a, b)| a != b));
+                    ctx.violation(
+                        "C14/apx-extension-does-not-read-back",
+                        json!({"labels": expect.len(), "parsed_labels": got.as_ref().map(|g| g.len()), "first_difference_at": first_diff,
+                               "written_prefix": String::from_utf8_lossy(&b).chars().take(200).collect::<String>()}),
+                        &json!({"kind": "apx-extension", "n_labels": expect.len(), "labels_prefix": expect.iter().take(20).collect::<Vec<_>>()}),
+                    )
+                }
             },
         }
         for st in [true, false] {
@@ -1715,7 +1737,7 @@ fn eval_c14_answers(ctx: &mut Ctx, rng: &mut Rng) {
 }
 
 pub fn run_c14(ctx: &mut Ctx) {
-    let n: u64 = ctx.tier.pick(40_000, 1_000_000);
+    let n: u64 = ctx.tier.pick(400_000, 6_000_000);
     for i in 0..n {
         if !ctx.mine(i) {
             continue;
